@@ -89,12 +89,15 @@ def _validate_data_flow_compatibility(inspection: PipelineInspection) -> None:
         - Errors are added to the node that has the incompatible input type
         - Only validates consecutive data-processing nodes
     """
-    for i in range(len(inspection.nodes) - 1):
-        current_node = inspection.nodes[i]
-        next_node = inspection.nodes[i + 1]
+    last_data_node = None
+    for next_node in inspection.nodes:
+        current_node = last_data_node
+        if next_node.output_type is not None:
+            last_data_node = next_node
 
-        # Skip validation if either node has no data types (e.g., context processors)
-        if current_node.output_type is None or next_node.input_type is None:
+        # Nodes without data types (e.g., context processors) pass data through
+        # unchanged: compare against the last node that declared an output type
+        if current_node is None or next_node.input_type is None:
             continue
 
         # Check if output type of current node is compatible with input type of next node
